@@ -3,6 +3,7 @@
 from __future__ import annotations
 
 import ast
+import re
 
 from ..engine.cfg import CFG, own_fragments, walk_fragment
 from ..engine.match import dotted, norm, func_body_stmts
@@ -195,6 +196,12 @@ def _rec_children(f: Func):
 def _const(run, P):
     from .util import find, first, has
     C = P.cls(f"{MOD}._ConstantFindingMapper")
+    if "combine" not in C.methods or not any(
+            getattr(b_, "name", "") == "CombineMapper" for b_ in P.mro(C)):
+        # another architecture of the classifier (a walk with visit / post_visit, say):
+        # the clauses below speak about combine() and the node stack
+        raise AnalysisError("_ConstantFindingMapper is not a CombineMapper with its own combine(): "
+                            "classifier architecture not recognised")
     mv = C.methods["map_variable"]
     e = mv.params[1]
     r = first(f"V_r = {e} not in self.free_variables", mv.node)
@@ -434,11 +441,48 @@ def _free(run, P):
                    and isinstance(n.iter, ast.Call) and isinstance(n.iter.func, ast.Attribute)
                    and n.iter.func.attr == "items"]
     stray = []
+    from .util import path_conditions
+
+    def whole_expression_guard(x):
+        """A call outside the table loop is the driver hoisting the expression as a
+        whole; that is sound exactly when no free variable occurs in it, callees
+        included.  Returns True (guarded so), False (guard leaves callees out) or
+        None (guarded in a way this clause does not read)."""
+        stmt = next((s_ for s_ in ast.walk(d.node) if isinstance(s_, ast.stmt)
+                     and not isinstance(s_, (ast.If, ast.For, ast.While, ast.Try, ast.With,
+                                             ast.FunctionDef))
+                     and any(y is x for y in ast.walk(s_))), None)
+        if stmt is None:
+            return None
+        texts = [t for t, _pol in path_conditions(d.node, stmt)]
+        # follow locals of the tests to what they were computed from
+        for s_ in ast.walk(d.node):
+            if isinstance(s_, ast.Assign) and len(s_.targets) == 1 \
+                    and isinstance(s_.targets[0], ast.Name) \
+                    and any(re.search(rf"\b{re.escape(s_.targets[0].id)}\b", t) for t in list(texts)):
+                texts.append(norm(s_.value))
+        gv = [t for t in texts if "get_variables(" in t]
+        if not gv:
+            return None
+        return all("include_function_symbols=True" in t for t in gv)
+
+    undecided = []
     for x in ast.walk(d.node):
         if isinstance(x, ast.Call) and isinstance(x.func, ast.Name) and x.func.id in (af, nv):
             inside = any(any(x is y for y in ast.walk(b)) for lp in table_loops for b in lp.body)
             if x.func.id == nv or not inside:
+                g_ = whole_expression_guard(x)
+                if g_ is True:
+                    continue
+                if g_ is None and path_conditions(d.node, next(
+                        (s_ for s_ in ast.walk(d.node) if isinstance(s_, ast.stmt)
+                         and any(y is x for y in ast.walk(s_))), d.node.body[0])):
+                    undecided.append(x)
+                    continue
                 stray.append(x)
+    if undecided and not stray:
+        raise AnalysisError(f"collapse_constants: {norm(undecided[0])[:50]} under a guard this "
+                            f"clause does not read")
     run.ob("C18.free", d, stray[0] if stray else d.node, not stray,
            construct=f"collapse_constants: {af}() is called only for the entries of the mapper's "
                      f"table, {nv} is only handed to the mapper"
